@@ -33,6 +33,8 @@ var c09Blocks = []string{
 	`<table><tr><td>cellx</td><td>celly</td></tr><tr><td><p>cellp</p></td><td>cellq</td></tr></table>`,
 	`<p>H<sub>2</sub>O is w<b>at</b>er, <span>D</span>rop cap</p>`,
 	`<img src="https://c.t/fotos/münchen-straße.jpg" srcset="https://c.t/f/größe.jpg 2x"><img src="/rel/ä b.png">`,
+	// fractional density and width descriptors (round k)
+	`<img src="i4.png" srcset="f1.png 1.5x, f2.png 2.25x, f3.png 640w"><picture><source srcset="pf.png 0.5x"><img src="pj.png"></picture>`,
 }
 
 // c09Srcset is the harness's own reading of a srcset attribute (the library's
